@@ -40,7 +40,11 @@ def expand_user(possible_path, shell_escape):
     something_changed = False
 
     # split will change the type of quotes, which may cause issues with shell variables
-    parts = shlex.split(possible_path)
+    try:
+        parts = shlex.split(possible_path)
+    except ValueError:
+        # not a list of shell words, for instance an unbalanced quote: nothing to expand
+        return possible_path
     for i, part in enumerate(parts):
         expanded = os.path.expanduser(part)
         if "~" in expanded and ":" in expanded:
